@@ -222,8 +222,18 @@ class Ctx:
 
     def driver(self, mode, lines, timeout=3000):
         """Pipe newline-separated inputs to the compiled Lean driver, return list of output lines."""
-        exe = os.path.join(LEAN, ".lake", "build", "bin", "driver_" + self.prop.lower())
-        if not getattr(self, "driver_ok", False):
+        name = mode if re.fullmatch(r"c\d\d", mode or "") else self.prop.lower()
+        exe = os.path.join(LEAN, ".lake", "build", "bin", "driver_" + name)
+        if name != self.prop.lower():
+            # another property's model driver (e.g. C04 judging faults in deferred groups with the defer model)
+            built = getattr(self, "_extra_drivers", {})
+            if name not in built:
+                rcd, sod, sed = sh(["lake", "build", "driver_" + name], cwd=LEAN, timeout=3000)
+                built[name] = (rcd == 0, sod + sed)
+                self._extra_drivers = built
+            if not built[name][0]:
+                raise RuntimeError("lean driver %s does not build:\n%s" % (name, built[name][1][-3000:]))
+        elif not getattr(self, "driver_ok", False):
             raise RuntimeError("lean driver does not build against the regenerated Gen files:\n" + getattr(self, "driver_log", "")[-3000:])
         inp = "\n".join(lines) + "\n"
         rc, so, se = sh([exe], inp=inp, timeout=timeout)
